@@ -134,6 +134,22 @@ func c19ListProp(c c19List) hx.Verdict {
 			v.Dev = hx.Devf("prefix-wrong", "%s prefix %d: got id=%d %x/%d, encoded id=%d %x/%d", c.Entry, i, g.id, g.addr, g.bits, w.ID, w.Addr, w.Bits)
 			return v
 		}
+		// no address bits are invented: the octets that were not encoded are zero, and the
+		// trailing bits of the last encoded octet are either kept as sent or cleared
+		enc := (w.Bits + 7) / 8
+		for k := enc; k < len(g.addr); k++ {
+			if g.addr[k] != 0 {
+				v.Dev = hx.Devf("prefix-invented-bits", "%s prefix %d of %d: decoded address %x/%d has non-zero octet %d, only %d octets were encoded (%x)", c.Entry, i, len(got), g.addr, g.bits, k, enc, w.Addr)
+				return v
+			}
+		}
+		if r := w.Bits % 8; r != 0 && enc-1 < len(w.Addr) {
+			sent := w.Addr[enc-1]
+			if g.addr[enc-1] != sent && g.addr[enc-1] != sent&(0xFF<<(8-r)) {
+				v.Dev = hx.Devf("prefix-invented-bits", "%s prefix %d: last octet decoded as %02x, sent %02x with %d significant bits", c.Entry, i, g.addr[enc-1], sent, r)
+				return v
+			}
+		}
 	}
 	return v
 }
